@@ -389,8 +389,12 @@ def generate_world(rng, tier="quick", force_class=None, min_features=1, max_feat
     n = int(round(math.exp(rng.uniform(math.log(30), math.log(300 if tier == "quick" else 400)))))
     if rng.random() < 0.08:
         n = rng.randint(12, 30)
+    elif tier == "thorough" and rng.random() < 0.03:
+        n = rng.randint(800, 2500)  # a few large samples (base buckets then hold ~min_freq of the rows)
     allowed = ALLOWED_KINDS[sut_class]
     max_f = max_features or (4 if tier == "quick" else 6)
+    if tier == "thorough" and max_features is None and rng.random() < 0.05:
+        max_f = 9
     n_feat = rng.randint(min_features, max(min_features, rng.choice([1, 2, 2, 3, 3, max_f])))
     feats = []
     specs = []
@@ -479,7 +483,7 @@ def generate_world(rng, tier="quick", force_class=None, min_features=1, max_feat
     params = {
         "min_freq": rng.choice([0.08, 0.1, 0.12, 0.15, 0.2, 0.25, 0.33, 0.5]),
         "copy": rng.random() < 0.6,
-        "n_jobs": rng.choice([1, 1, 2, 3, 4]),
+        "n_jobs": rng.choice([1, 1, 2, 3, 4]) if tier == "quick" else rng.choice([1, 1, 2, 3, 4, 6, 8]),
     }
     if tier == "thorough" and rng.random() < 0.05:
         params["min_freq"] = rng.choice([0.04, 0.05, 0.06])
